@@ -4,7 +4,7 @@
    `bearing` = bearing_degrees (default precision), `bearing_raw` its value before rounding,
    `dest_rad`/`dest_deg` = inverse_haversine_radians/degrees before the 1e-7 rounding,
    `dist_xyz` = dist_xyz_meters, `rot` = rotate_coordinates (one coordinate). *)
-From GV Require Import Prelude SphereM SphereP1 SphereP2 SphereP3 SphereP4.
+From GV Require Import Prelude SphereM SphereP1 SphereP2 SphereP3 SphereP4 SphereP5.
 From Coq Require Import Reals Lra.
 Open Scope R_scope.
 
@@ -98,6 +98,21 @@ Theorem C07_dest_rounding : forall p theta d,
   Rabs (lat (dest_rad_rounded p theta d) - lat (dest_rad p theta d)) <= / 2 / 10 ^ 7 + / 10 ^ 19.
 Proof. exact dest_rounding. Qed.
 Print Assumptions C07_dest_rounding.
+
+(* --- ... hence within 2 cm (in METRES, haversine) of the exact destination, which is exactly d away from the
+       start at the requested initial bearing (C07_dest_dist, C07_dest_bearing): "to within 2 cm" --- *)
+Theorem C07_dest_within_2cm : forall p theta d,
+  hdist (dest_rad_rounded p theta d) (dest_rad p theta d) <= 2 / 100.
+Proof. exact dest_rounded_within_2cm. Qed.
+Print Assumptions C07_dest_within_2cm.
+
+(* the general fact behind it: coordinates within e degrees of each other on both axes are at most
+   2 * Rearth * rad e metres apart *)
+Theorem C07_small_displacement : forall c1 c2 e,
+  0 <= e <= 1 -> Rabs (lon c2 - lon c1) <= e -> Rabs (lat c2 - lat c1) <= e ->
+  hdist c1 c2 <= 2 * Rearth * rad e.
+Proof. exact hdist_small. Qed.
+Print Assumptions C07_small_displacement.
 
 (* --- planar rotation about an origin: identity at 0, additive, distance preserving;
        rot = rot_raw after un-wrapping the input by whole turns --- *)
